@@ -36,8 +36,9 @@ ASSUME = [
     "representation of integers (two's complement, little-endian), default argument promotions",
     "C element addressing data_ptr + k * sizeof(element) is modelled as list indexing of the object tree; "
     "struct layout is not modelled (the generated descriptors take &m->field)",
-    "CPython 3.12 dataclasses.asdict / dict comprehension / IntEnum / json.dumps behave as modelled in "
-    "Json.py_asdict / Json.py_dumps (validated by T2 on to_dict() and on the text of to_json())",
+    "CPython 3.12 dataclasses.asdict / dict comprehension / IntEnum / json.dumps (incl. its `default` hook being "
+    "called exactly for the non-serializable bytearray objects) behave as modelled in Json.py_asdict / "
+    "Json.py_dumps (validated by T2 on to_dict() and on the text of to_json())",
     "well-formedness: Json(Wf).wf_json is a hand-written recogniser of the RFC 8259 grammar restricted to "
     "texts without white space / fractions / exponents / escapes; C16_wf_json proves it accepts every "
     "print_compact output; that the recogniser itself is the JSON grammar is read, not proved (cross-checked by "
@@ -240,9 +241,10 @@ def width_stream(rng) -> List[Tuple[sg.Schema, List[Any], str]]:
 
 
 def known_class_stream(rng) -> List[Tuple[sg.Schema, List[Any], str]]:
-    """Small stream INSIDE the regions the Python theorem excludes."""
+    """Small stream INSIDE / NEAR the region the Python theorem excludes (json-proxy-name), plus
+    the region of the FIXED finding json-bytes, which must now pass."""
     cases = []
-    # json-bytes: direct byte arrays, in every position
+    # json-bytes (fixed by b3480f8): direct byte arrays, in every position
     bs = sg.T("alias", name="Blob", t=sg.T("arr", cap=3, t=sg.T("byte")))
     inner = sg.T("msg", name="Inner")
     inner.fields = [(1, "raw", sg.T("arr", cap=2, t=sg.T("byte"))), (2, "n", sg.T("int", n=9))]
@@ -250,7 +252,7 @@ def known_class_stream(rng) -> List[Tuple[sg.Schema, List[Any], str]]:
     top.fields = [(2, "b", sg.T("arr", cap=4, t=sg.T("byte"))), (1, "blob", bs), (3, "inner", inner),
                   (4, "blobs", sg.T("arr", cap=2, t=bs))]
     s = simple_schema("kbytes", [bs, inner], top)
-    cases.append((s, [sg.gen_value(top, rng, m) for m in ("random", "max", "zero")], "inside-known-class:json-bytes"))
+    cases.append((s, [sg.gen_value(top, rng, m) for m in ("random", "max", "zero")], "regression:json-bytes"))
     # not in the class: an array of an alias of byte is a list of ints
     ab = sg.T("alias", name="Octet", t=sg.T("byte"))
     top = sg.T("msg", name="Octets")
@@ -304,7 +306,9 @@ BITS = {1: "harness left the theorem's guards", 2: "tie C", 4: "property C (assi
 
 
 def classify(s: sg.Schema, rr: Dict[str, Any]) -> Optional[str]:
-    """Key of the known finding that explains a failing PYTHON property bit, or None."""
+    """Key of the finding that explains a failing PYTHON property bit, or None.  json-bytes is
+    listed as FIXED in known_findings.jsonl, so naming it suppresses nothing: a TypeError for a
+    byte array is reported as a VIOLATION (regression)."""
     comp = rr.get("compact") or {}
     if has_byte_array(s.top) and comp.get("exc") == "TypeError" and "bytearray" in comp.get("msg", ""):
         return "json-bytes"
@@ -332,17 +336,6 @@ def run_json(ck: Check, prop_file: str, n_quick=(40, 4), n_thorough=(600, 8), tc
     import time as _time
     t_start = _time.time()
     timings: Dict[str, float] = {}
-    # known findings of this property proposed by this module (corpus/C16/known_findings.jsonl);
-    # entries of the global known_findings.jsonl with the same key take precedence
-    have = {kf.get("key") for kf in ck.known}
-    lk = os.path.join(VERIF, "corpus", ck.prop, "known_findings.jsonl")
-    if os.path.exists(lk):
-        for line in open(lk):
-            line = line.strip()
-            if line and not line.startswith("#"):
-                d = json.loads(line)
-                if d.get("property") == ck.prop and d.get("key") not in have:
-                    ck.known.append(d)
     ck.coverage["trusted_base"] = ["Coq 8.16.1 kernel + vm_compute", "tools/translate_json.py",
                                    "tools/run_json.py + CPython 3.12 + gcc + ctypes",
                                    "no axioms (Print Assumptions: closed)"]
